@@ -30,7 +30,7 @@ def run_enc(out, args, sets=None, timeout=120, variant="hooks", env=None):
     cmd = [exe, "--out", out, "--timeout", str(timeout)] + list(args)
     for k, v in (sets or {}).items():
         cmd += ["--set", "%s=%s" % (k, v)]
-    rc, log = vlib.sh(cmd, timeout=timeout + 30, env=env)
+    rc, log = vlib.sh(cmd, timeout=timeout * 8 + 60, env=env)   # the recorder extends its own timeout while the run is slow but not stuck
     evs = []
     if os.path.exists(out + ".ev"):
         for line in open(out + ".ev"):
@@ -99,7 +99,7 @@ def run_dec(pkts, out, args, timeout=120, variant="hooks"):
     """Run the decoder-side recorder; returns dict rc, events."""
     exe = dec_record_exe(variant)
     cmd = [exe, "--pkts", pkts, "--out", out, "--timeout", str(timeout)] + list(args)
-    rc, log = vlib.sh(cmd, timeout=timeout + 30)
+    rc, log = vlib.sh(cmd, timeout=timeout * 8 + 60)
     evs = []
     if os.path.exists(out):
         for line in open(out):
